@@ -90,6 +90,8 @@ pub(crate) enum AppointmentInfo {
 enum StoredAppointment {
     New,
     Update,
+    /// The appointment could not be stored (its owner is gone).
+    NotStored,
 }
 
 /// Types of new triggered appointments handled by the [Watcher].
@@ -98,6 +100,8 @@ enum TriggeredAppointment {
     Accepted,
     Rejected,
     Invalid,
+    /// The appointment could not be stored (its owner is gone).
+    NotStored,
 }
 
 /// Component in charge of watching for triggers in the chain (aka channel breaches for lightning).
@@ -219,11 +223,23 @@ impl Watcher {
         match locator_cache.get(&extended_appointment.locator()) {
             // Appointments that were triggered in blocks held in the cache
             Some(dispute_tx) => {
-                self.store_triggered_appointment(uuid, &extended_appointment, user_id, dispute_tx);
+                if self.store_triggered_appointment(
+                    uuid,
+                    &extended_appointment,
+                    user_id,
+                    dispute_tx,
+                ) == TriggeredAppointment::NotStored
+                {
+                    return Err(AddAppointmentFailure::AuthenticationFailure);
+                }
             }
             // Regular appointments that have not been triggered (or, at least, not recently)
             None => {
-                self.store_appointment(uuid, &extended_appointment);
+                if self.store_appointment(uuid, &extended_appointment)
+                    == StoredAppointment::NotStored
+                {
+                    return Err(AddAppointmentFailure::AuthenticationFailure);
+                }
             }
         };
 
@@ -251,8 +267,15 @@ impl Watcher {
             dbm.update_appointment(uuid, appointment).unwrap();
             StoredAppointment::Update
         } else {
-            dbm.store_appointment(uuid, appointment).unwrap();
-            StoredAppointment::New
+            match dbm.store_appointment(uuid, appointment) {
+                Ok(_) => StoredAppointment::New,
+                // The user may have been removed (outdated subscription) since it was authenticated,
+                // in which case there is nobody to store the appointment for.
+                Err(e) => {
+                    log::warn!("Appointment {uuid} could not be stored: {e:?}");
+                    StoredAppointment::NotStored
+                }
+            }
         }
     }
 
@@ -277,7 +300,9 @@ impl Watcher {
                 // FKs to trackers. If handle breach fails, data will be deleted later.
                 // An earlier version may still be around (e.g. its penalty was already on chain when
                 // the breach was seen, so it was never moved to the Responder), hence store or update.
-                self.store_appointment(uuid, appointment);
+                if self.store_appointment(uuid, appointment) == StoredAppointment::NotStored {
+                    return TriggeredAppointment::NotStored;
+                }
 
                 if let ConfirmationStatus::Rejected(reason) = self.responder.handle_breach(
                     uuid,
